@@ -172,6 +172,41 @@ def oracle_c18(cid, impl, m):
     return None      # decoder-only ops, sset-parse, utf8: correspondence only
 
 
+def oracle_c08(cid, impl, m):
+    """Every transport reports the engine's decision; mirror endpoints answer 200 iff allowed,
+    403 iff denied; batch entries are the single decisions in request order."""
+    if "decisions" not in m:
+        return None
+    dec = m["decisions"].split(",") if m["decisions"] else []
+    for i, d in enumerate(dec):
+        v = impl.get(f"e{i}")
+        if v is None:
+            return ("c08-missing", f"no result for entry {i}")
+        for part in v.split("|"):
+            for x in part.split("/"):
+                x = x.split("=", 1)[-1]
+                allowed = x in ("200:1", "ok:1", "403:1")
+                if allowed != (d == "1"):
+                    return ("c08-disagree", f"entry {i}: transport answered {v}, engine decision {d}")
+                if x == "200:0" and "403" in v.split("|")[0] and False:
+                    pass
+        mirror = v.split("|")[0]
+        for x in mirror.split("/"):
+            x = x.split("=", 1)[-1]
+            if d == "1" and x != "200:1":
+                return ("c08-mirror", f"entry {i}: allowed but mirror endpoint answered {x}")
+            if x == "200:0":
+                return ("c08-mirror", f"entry {i}: mirror endpoint answered 200 with allowed=false")
+    for key in ("batch_rest", "batch_grpc"):
+        b = impl.get(key, "")
+        got = [x.split(",")[0] for x in b.split(";")] if b and not b.startswith(("status", "err")) else None
+        if got is None:
+            return ("c08-batch", f"{key} failed as a whole: {b}")
+        if got != dec:
+            return ("c08-batch", f"{key} decisions {got} differ from single decisions {dec}")
+    return True
+
+
 ENGINE_RULE = ("configs from an OPL-shaped grammar (1-4 namespaces, related relations with plain and SubjectSet types, "
                "permissions over includes/permits/traverse/!/&&/||, rendered to OPL and loaded through the real parser, "
                "or legacy namespaces without relations), 0-54 tuples biased to declared relations, chains, cycles, duplicates; "
@@ -179,6 +214,15 @@ ENGINE_RULE = ("configs from an OPL-shaped grammar (1-4 namespaces, related rela
                "distinct = distinct protocol lines")
 
 PROPS = {
+    "C08": {
+        "lean_module": "Keto.Props.C08",
+        "theorems": ["Keto.H.C08_agree", "Keto.H.C08_engine_results_ok", "Keto.H.C08_mirror_status",
+                     "Keto.H.C08_unknown_namespace_never_allowed", "Keto.H.C08_batch_pointwise", "Keto.H.C08_batch_decisions"],
+        "streams": [{"name": "hcheck", "n": {"quick": 300, "thorough": 3000}, "oracle": oracle_c08, "thorough_seeds": 3}],
+        "rule": "OPL configuration with relations, a traverse permission and a permission with !; random stored states (via the real mapper); entries with subject id / subject set / no subject, known and unknown namespaces, undeclared relations, names with separators and empty names, max-depth parameters; every entry through REST GET and POST (mirror and always-200), gRPC Check, and batches of 1-5 entries through REST and gRPC batch check; the engine's own result for the mapped tuple is handed to the model; non-trivial = at least one allowed entry",
+        "partial": "",
+        "assumptions": ["the handler model is parametric in the engine's result; its link to the engine model is C08_engine_results_ok"],
+    },
     "C18": {
         "lean_module": "Keto.Props.C18",
         "theorems": ["Keto.C18_json_tags_tie", "Keto.C18_json_keys",
